@@ -19,8 +19,8 @@ SignDuality == full => /\ PeakSample(Neg(x)) = TroughSample(x)
 \* the peak is a strict local maximum and no other one is higher
 PeakIsHighest == (full /\ PeakSample(x) # None) =>
     LET p == PeakSample(x) + 1 IN x[p] > x[p-1] /\ x[p] > x[p+1] /\ \A k \in Peaks(x) : x[k] <= x[p]
-\* a cycle whose peak precedes its trough has a sign change between them unless it touches zero exactly
-PeakAboveTrough == (full /\ PeakSample(x) # None /\ TroughSample(x) # None) => x[PeakSample(x) + 1] > x[TroughSample(x) + 1]
+\* (NOT a theorem: "the highest peak lies above the lowest trough" - <<-1,0,-1,-1,1,1,0,1>> has both at 0, and with more
+\*  levels a low peak can lie below a high trough; TLC refuted it at length 8 and it was removed.)
 W_AllFour == ~(full /\ PeakSample(x) # None /\ TroughSample(x) # None /\ DescZero(x) # None /\ AscZero(x) # None)
 Levels5 == {-2, -1, 0, 1, 2}
 Levels3 == {-1, 0, 1}
